@@ -11,6 +11,9 @@ PROPS = {
  "C16": ("exploration", "Every state x token x rule of every generated table: state_actions/state_shifts/core_reduces/reduce_only_state/goto vs action() and the graph's edges, reachability of all states, and every closed state vs a reference LR(1) closure of its core. Exhaustive over cells per generated grammar; grammars are sampled.",
          "Trusted: harness FIRST/nullable/closure.",
          "runtime monitoring: invariant checks on the live state graph and table at the quiescent point after construction", "DESIGN.md §4 C16"),
+ "C17": ("exploration", "FIRST / epsilon / FOLLOW / has_path compared set-for-set, and min/max sentence costs value-for-value under three token-cost functions, with independently written reference analyses on every generated grammar (including unproductive, unreachable and cyclic ones); generated minimal sentences checked derivable (Earley) and minimal. Termination is observed through a per-case watchdog and, for the one query family known not to return on cyclic grammars, through sampled subprocess probes with a timeout.",
+         "Trusted: harness reference analyses (relation closures, Knuth-style min cost, longest path) and Earley recogniser. Three known findings are matched by narrow predicates (see known_findings.json).",
+         "runtime monitoring: reference-model monitors over generated grammars; watchdog + subprocess probes for termination", "DESIGN.md §4 C17"),
  "C19": ("exploration", "Held on every execution observed: the complete space of short texts (all strings up to length 4/6 over a hostile 6-symbol alphabet, every chunking, offset and span) plus random longer texts, each compared with a naive line model. Exhaustive on the bounded space, sampled beyond it.",
          "Trusted: the 40-line naive line model; two documented ambiguities (CR LF column, which line a span ending at a line start extends to) are accepted both ways.",
          "runtime monitoring: reference-model monitor (naive line model) over exhaustive small texts + random texts", "DESIGN.md §4 C19"),
